@@ -85,6 +85,7 @@ TFinish ==
           ELSE IF e.obj # s.best THEN Stop("basic_optimizer_does_not_report_the_tracked_best")
           ELSE IF e.vars # 1 THEN Stop("basic_variables_are_not_those_of_the_reported_result")
           ELSE IF Routed(e) # "ok" THEN Stop("output_still_redirected_after_the_run")
+          ELSE IF e.open # 0 THEN Stop("output_descriptors_left_open_by_the_run")
           ELSE Finish /\ l' = l + 1 /\ UNCHANGED <<tid, verdict>>
 TEnd ==
   /\ verdict = "ok" /\ s.phase = "end"
